@@ -132,6 +132,11 @@ class _ConstantFindingMapper(CombineMapper):
         self.is_constant[expr] = result
         return result
 
+    def map_logical_not(self, expr):
+        # The base class forwards to the child without calling combine(),
+        # which would leave this node unclassified and on the node stack.
+        return self.combine([self.rec(expr.child)])
+
 
 def _is_atomic(expr):
     return isinstance(expr, Variable) or is_constant(expr)
